@@ -250,14 +250,61 @@ def part_lines(ctx):
             max_examples=500 if ctx.quick else 5000)
 
 
+def long_model(n, ch):
+    """A flat program of n simple statements - the kinds that parse an EMPTY expression somewhere: calls without
+    arguments, empty tables, bare returns, `local x` - with a few generated statements in between."""
+    name = lambda b: ('chain', ('name', b), [])
+    block = []
+    for i in range(n):
+        k = ch.below(8)
+        nm = b'f%d' % (i % 37)
+        if k <= 2:
+            block.append(('call', ('chain', ('name', nm), [('call', ('args', []))])))
+        elif k == 3:
+            block.append(('call', ('chain', ('name', b'o'), [('method', nm, ('args', []))])))
+        elif k == 4:
+            block.append(('assign', [name(b't%d' % (i % 11))], b'=', [('exp', [('table', [])])]))
+        elif k == 5:
+            block.append(('function', [b'g%d' % i], None, ([], False, [('return', None)])))
+        elif k == 6:
+            block.append(('local', [b'v%d' % (i % 23)], None))
+        else:
+            block.append(('assign', [name(b'x')], b'=', [('exp', [('chain', ('name', nm), [('call', ('args', []))]),
+                                                                    ('binop', b'+'), ('number', b'%d' % i)])]))
+    return block
+
+
+def part_long(ctx):
+    def body(v):
+        seed, n, mode = v
+        ch = Choices(seed)
+        model = long_model(n, ch)
+        toks, stmts = luagen.render(model, ch)
+        lay = luagen.layout(toks, ch, mode, comments=False)
+        if luagen.verify(lay) is None:
+            ctx.stats.exclude('generator_selfcheck_failed')
+            return
+        case = {'long': n, 'seed': bytes(seed), 'mode': mode, 'source': lay.src}
+        check_program(lay.src, model, stmts, case, toks=toks)
+        ctx.stats.case(lay.src, True, {'statements': n, 'mode': mode, 'source': show(lay.src, 80)}, ['long_program', 'mode_' + mode])
+    ctx.hyp('long', st.tuples(st.binary(min_size=600, max_size=600), st.integers(100, 500), st.sampled_from(['lines', 'minimal', 'free'])),
+            body, max_examples=6 if ctx.quick else 40, shrink=False)
+
+
 def parts(tier):
     if tier == 'quick':
-        return [('free', part_free, 6), ('minimal', part_minimal, 2), ('lines', part_lines, 2)]
-    return [('free', part_free, 10), ('minimal', part_minimal, 3), ('lines', part_lines, 3)]
+        return [('free', part_free, 6), ('minimal', part_minimal, 2), ('lines', part_lines, 2), ('long', part_long, 2)]
+    return [('free', part_free, 9), ('minimal', part_minimal, 3), ('lines', part_lines, 2), ('long', part_long, 2)]
 
 
 def replay(case):
-    if 'seed' in case:
+    if 'long' in case:
+        ch = Choices(case['seed'])
+        model = long_model(case['long'], ch)
+        toks, stmts = luagen.render(model, ch)
+        lay = luagen.layout(toks, ch, case['mode'], comments=False)
+        check_program(lay.src, model, stmts, case, toks=toks)
+    elif 'seed' in case:
         model, tags, toks, stmts, lay = build(case['seed'], case.get('mode', 'free'))
         if luagen.verify(lay) is None:
             return
@@ -279,7 +326,7 @@ def vacuity(total, tier):
     if total.classes.get('shortif', 0) < 0.10 * ev:
         msgs.append('only %d of %d programs contain a short-if' % (total.classes.get('shortif', 0), ev))
     for lab in ('shortif_else', 'shortif_in_block', 'shortif_at_end', 'shortif_followed', 'shortif_laststat',
-                'comments', 'mode_minimal', 'mode_lines', 'reused_parser', 'incremental'):
+                'comments', 'mode_minimal', 'mode_lines', 'reused_parser', 'incremental', 'long_program'):
         if total.classes.get(lab, 0) < 5:
             msgs.append('class %s seen %d times' % (lab, total.classes.get(lab, 0)))
     if total.excluded.get('generator_selfcheck_failed', 0) > 0.02 * ev:
